@@ -30,7 +30,7 @@ TEXT = {
             "functions not under contract; remove_all's scan loop and the error-id retry loop have no measure (stated)"),
     "C11": ("Descriptor ownership is linear in the prelude (OwnedFd is not Clone, no forget); raw-fd escape hatches are enumerated by a scan and each is under contract (into_raw_fd only on Ok, borrow_raw only for non-negative fds); the openat2 wrapper is proved a second time with an explicit ledger of raw descriptors (nothing the kernel returned is dropped unowned); a ghost close-on-exec fact is carried from the syscall stubs through resolvers, Root, Handle and procfs to every returned descriptor.",
             "descriptors opened inside std/rustix (Dir::read_from), FrozenFd; Rc::try_unwrap uniqueness is assumed"),
-    "C12": ("Contract proof of mkdir_all: mode validation before any syscall, '..' refused, each mkdirat on the lineage chain with the requested mode, only EEXIST tolerated, returned handle is the chain's end; every lookup goes through the Root's configured resolver (rigid ghost constant, from the public wrapper down to the backend call); the symlink stack that decides what a partial lookup reports is proved against its specification (U25).",
+    "C12": ("Contract proof of mkdir_all: mode validation before any syscall, '..' refused, each mkdirat on the lineage chain with the requested mode, only EEXIST tolerated, returned handle is the chain's end; every lookup goes through the Root's configured resolver (rigid ghost constant, from the public wrapper down to the backend call); the symlink stack that decides what a partial lookup reports is proved against its specification (U25) and the walk is proved never to make it report a broken stack (protocol invariant, U27).",
             "convergence of concurrent callers is not decided (mechanism only)"),
     "C13": ("Contract proof of utils::remove_all/remove_inode and Root::remove_all: '.'/'..'/'/'-containing names refused before any mutation, recursion only through O_NOFOLLOW|O_DIRECTORY opens of readdir names, only ENOENT swallowed and ENOENT never reported (a concurrent caller finished the removal).",
             "A1, A8; partial correctness only (no termination measure against an adversary)"),
